@@ -4,6 +4,7 @@
 // modes:  solve     setup()+solve() through the public API; statistics, independent residual, exact errors
 //         fmgstart  FMG start-up (maxIterations = 0) over object histories + harness-side nested iteration
 //         hist      a history of (options, setup, solve x n) blocks on ONE object vs fresh objects
+#include <algorithm>
 #include <csignal>
 #include <fstream>
 
@@ -357,6 +358,24 @@ static void modeHist(const Case& c)
                 ch = ',';
         os << "status=ok steps=" << step << " bad=" << bad << " what=" << (badWhat.empty() ? "-" : badWhat)
            << " hidden=" << hid << " freshhidden=" << freshHidden[blocks.back().first] << " trace=" << trace;
+        // the fresh-object observations themselves, in the order they were made in this process (the checker compares them
+        // with a process that has handled nothing else: process-global state must not leak into a fresh object either)
+        os << " freshobs=";
+        {
+            std::vector<int> order;
+            for (auto& b : blocks)
+                if (std::find(order.begin(), order.end(), b.first) == order.end())
+                    order.push_back(b.first);
+            bool first = true;
+            for (int t : order) {
+                std::string o = fresh[t].str();
+                for (auto& ch : o)
+                    if (ch == ' ')
+                        ch = ',';
+                os << (first ? "" : "/") << "t" << t << ":" << o;
+                first = false;
+            }
+        }
     }
     catch (const std::exception& ex) {
         std::string w = ex.what();
